@@ -74,8 +74,8 @@ NPOS = env_int("VF_NPOS", 1)
 MAXLEN = env_int("VF_MAXLEN", 8)
 
 # PLY dispatches a word to the first rule of the master regex that matches; the dispatch is
-# taken from the real compiled master regex, on the upper-case spelling (the regexes of the
-# keyword rules are case-insensitive - an RX obligation checks that).
+# taken from the real compiled master regex: for the reference on the upper-case spelling, for
+# the word under test on the spelling under test.
 _MASTER = LX.lexstatere["INITIAL"]
 
 
@@ -156,7 +156,9 @@ def restyle(w: str, style: int, pos: int) -> str:
 
 
 def _case_ok(wi: int, cased: str) -> bool:
-    ty, va, fl = lex_word(cased, RULES[wi], BASE)
+    # PLY dispatches on the spelling actually written: a keyword rule whose regex is not case-insensitive hands other
+    # spellings to a different rule (usually t_ID)
+    ty, va, fl = lex_word(cased, rule_for(cased), BASE)
     rty, rva, rfl = REF[wi]
     if ty != rty or fl != rfl:
         return False
